@@ -6,6 +6,7 @@ import (
 	"go.flow.arcalot.io/engine/zverif/ref"
 	"go.flow.arcalot.io/engine/zverif/world"
 	"strconv"
+	"strings"
 )
 
 // Observe builds the observed-world facts of the main program of a run (DESIGN.md §4): the same
@@ -86,7 +87,11 @@ func Observe(p *ir.Program, input map[string]any, evs []world.Event, upto int64,
 			if s.Enabled != nil {
 				r := f.Eval(s.Enabled)
 				if r.St == ref.OK {
-					enabled, _ = r.V.(bool)
+					if b, err := ref.ToBool(r.V); err == nil {
+						enabled = b
+					} else {
+						known = false
+					}
 				} else {
 					known = false
 				}
@@ -190,9 +195,22 @@ var closeFuncs = map[string]bool{"*runningStep.ForceClose": true, "*runningStep.
 // ShutdownSeq is the decision at which the goroutine that called Execute for client `name` first
 // started closing steps (0 if it never did): from then on the engine is tearing the run down.
 func ShutdownSeq(r *harness.Result, name string) int64 {
-	prefix := "env/client/" + name + "@"
+	// the caller's goroutine itself (normal return, error) or the goroutine it spawns for the purpose
+	// after cancellation; goroutines of loop items close their own sub-runs and do not count
+	prefix := "env/client/" + name
 	for _, d := range r.Journal {
-		if len(d.Pick) > len(prefix) && d.Pick[:len(prefix)] == prefix && closeFuncs[SiteFunc[d.Pick[len(prefix):]]] {
+		i := strings.LastIndex(d.Pick, "@")
+		if i < 0 || !strings.HasPrefix(d.Pick, prefix) {
+			continue
+		}
+		g, site := d.Pick[:i], d.Pick[i+1:]
+		if g != prefix && !strings.HasPrefix(g, prefix+"/workflow/workflow.go:") {
+			continue
+		}
+		if strings.Contains(g, "foreach/") || strings.Contains(g[len(prefix):], "provider.go") {
+			continue
+		}
+		if closeFuncs[SiteFunc[site]] {
 			return d.N
 		}
 	}
